@@ -278,6 +278,17 @@ fn c12_remote_limit_update_step() {
         assert!(unsafe { STRAT_CALLS } == 1 && unsafe { STRAT_KIND } == kind);
         assert!(unsafe { STRAT_DIR } == Some(dir) && unsafe { STRAT_VAL } == told);
         match answer {
+            // STREAMS_BLOCKED (kind 3): the strategy's answer is clamped to 2^60-1 and applied only if it RAISES
+            // the advertised limit (a limit once advertised is never taken back; fix eafb1d0 in /repo)
+            Some(v) if kind == 3 => {
+                let want = if v > MAX_STREAMS_LIMIT { MAX_STREAMS_LIMIT } else { v };
+                if want > max[idx] {
+                    assert!(s.max[idx] == want && unsafe { MAX_N } == 1);
+                    assert!(unsafe { MAX_LAST } == Some(MaxStreamsFrame::with(dir, VarInt::from_u64(want).unwrap())));
+                } else {
+                    assert!(eq2(&s.max, &max) && unsafe { MAX_N } == 0);
+                }
+            }
             Some(v) => {
                 assert!(s.max[idx] == v && unsafe { MAX_N } == 1);
                 assert!(unsafe { MAX_LAST } == Some(MaxStreamsFrame::with(dir, VarInt::from_u64(v).unwrap())));
